@@ -125,6 +125,12 @@ func ReadEnvironment(data json.RawMessage) (Environment, error) {
 	env := NewBuilder().Build().(*environment)
 	envelope := env.toEnvelope()
 
+	// unmarshal into a copy of the default number format, not into the shared default itself
+	if envelope.NumberFormat != nil {
+		numberFormat := *envelope.NumberFormat
+		envelope.NumberFormat = &numberFormat
+	}
+
 	if err := utils.UnmarshalAndValidate(data, envelope); err != nil {
 		return nil, err
 	}
